@@ -10,9 +10,10 @@ OVERLAY = {"p2p/security/noise/zz_c02_verif_test.go": "harness/overlay/noise/c02
            "p2p/security/tls/zz_c02_verif_test.go": "harness/overlay/c02/tls_verif_test.go",
            "p2p/muxer/yamux/zz_c02_verif_test.go": "harness/overlay/c02/yamux_verif_test.go",
            "p2p/muxer/yamux/zz_c02_mux_verif_test.go": "harness/overlay/c02/mux_verif_test.go",
+           "p2p/security/noise/zz_c02_cw_verif_test.go": "harness/overlay/c02/noise_cw_verif_test.go",
            "zz_c02_host_verif_test.go": "harness/overlay/c02/host_verif_test.go"}
 
-SUITES = [("p2p/security/noise", "TestVerifC02Noise$"), ("p2p/net/pnet", "TestVerifC02Pnet$"),
+SUITES = [("p2p/security/noise", "TestVerifC02Noise$"), ("p2p/security/noise", "TestVerifC02NoiseCW$"), ("p2p/net/pnet", "TestVerifC02Pnet$"),
           ("p2p/transport/tcpreuse/internal/sampledconn", "TestVerifC02Sampled$"), ("p2p/security/tls", "TestVerifC02TLS$"),
           ("p2p/muxer/yamux", "TestVerifC02Yamux$"), ("p2p/muxer/yamux", "TestVerifC02Mux$"), (".", "TestVerifC02Host$")]
 
@@ -102,10 +103,36 @@ def describe7(t):
             "reads_total": len(reads), "events": len(ev)}
 
 
+def parse8(t):
+    """kind 8: 8 cfg K (nw len..)*K NR (wid start count)*NR res -> (cfg, writers, runs, res)"""
+    t = [int(x) for x in t]
+    cfg, k = t[1], t[2]
+    p = 3
+    writers = []
+    for _ in range(k):
+        nw = t[p]
+        writers.append(t[p + 1:p + 1 + nw])
+        p += 1 + nw
+    nr = t[p]
+    p += 1
+    runs = [t[p + 3 * i:p + 3 * i + 3] for i in range(nr)]
+    return cfg, writers, runs, t[p + 3 * nr]
+
+
+def describe8(t):
+    cfg, writers, runs, res = parse8(t)
+    return {"stack": "noise session with several goroutines writing concurrently (every byte carries writer and position)",
+            "writers_on": "initiator" if cfg == 0 else "responder", "write_sizes_per_writer": writers,
+            "delivered_runs(first 24: writer, offset in its own stream, length)": runs[:24], "runs_total": len(runs),
+            "reader_ended_with": {1: "EOF", 2: "error"}.get(res, res)}
+
+
 def describe(t):
     try:
         if t[0] == 7:
             return describe7(t)
+        if t[0] == 8:
+            return describe8(t)
         w = t[2]
         wl = t[3:3 + w]
         ek, ei, cl, nr = t[3 + w:7 + w]
@@ -118,6 +145,8 @@ def describe(t):
 
 def nontrivial(line):
     t = line.split()
+    if t[0] == b"8":
+        return True
     if t[0] == b"7":
         try:
             _, streams, _ = parse7(t)
@@ -130,6 +159,12 @@ def nontrivial(line):
 
 
 def key(tag, toks, d):
+    if toks[0] == 8:
+        try:
+            cfg, writers, runs, res = parse8(toks)
+            return "C02:%s:stack=8:cfg=%d:writers=%s" % (tag, cfg, writers)
+        except Exception:
+            return "C02:%s:stack=8:malformed" % tag
     if toks[0] == 7:
         try:
             cfg, streams, _ = parse7(toks)
@@ -141,6 +176,12 @@ def key(tag, toks, d):
 
 
 def what(tag, toks, d):
+    if toks[0] == 8:
+        try:
+            cfg, writers, runs, res = parse8(toks)
+            return "noise session, %d concurrent writers with write sizes %s: the delivered stream (%d runs, first %s) is not a sequence of whole writes / not everything arrived" % (len(writers), writers, len(runs), runs[:6])
+        except Exception:
+            return "noise session with concurrent writers (stack 8): malformed case line"
     if toks[0] == 7:
         try:
             cfg, streams, ev = parse7(toks)
@@ -178,6 +219,9 @@ if __name__ == "__main__":
              "each writer-to-reader frame is held in a queue and handed to the reader one at a time by the harness, which waits until the receive loop is blocked again on an empty connection, "
              "interleaved at random with the reader's Reads (buffers 1..300000), its own half-close, and the writer's FIN/RST; write sizes sit on the frame (65524) and window (262144) boundaries so that writers stall on the window. "
              "The whole frame log (both directions, with payload-matches-written-stream bits) and every Read result go into the case line. "
+             "Noise sessions whose raw byte stream is re-chunked arbitrarily, in particular with handshake message 3 and the first transport frames returned by ONE Read of the responder's connection; "
+             "Noise sessions with 2-4 goroutines writing concurrently on one connection, writes of several frames, every byte carrying writer and position, judged by 'the delivered stream is a sequence of whole writes' (stack 8); "
+             "host streams whose listener-side in-line handler keeps reading after the negotiation timeout has passed. "
              "Non-trivial = more than one Noise frame, tampered, or a non-Noise stack (stack 7: more than one stream or more than one Data frame).",
         describe=describe, key=key, what=what, crosscheck=15,
     ))
